@@ -229,13 +229,13 @@ struct Exec
 		for(size_t k = 0; k < plan.ops.size(); k++)
 		{
 			const Op& o = plan.ops[k];
-			if(o.kind == "fact" && o.i.size() >= 2 && o.i[1])
+			if((o.kind == "fact" && o.i.size() >= 2 && o.i[1]) || (o.kind == "binom" && o.i.size() >= 3 && o.i[2]))
 			{
 				pid_t pid = fork();
 				if(pid == 0)
 				{
 					alarm(60);
-					solo[k] = libphysica::Factorial((unsigned) o.i[0]);
+					solo[k] = o.kind == "fact" ? libphysica::Factorial((unsigned) o.i[0]) : libphysica::Binomial_Coefficient((int) o.i[0], (int) o.i[1]);
 					_exit(0);
 				}
 				int st;
@@ -243,7 +243,7 @@ struct Exec
 				if(!WIFEXITED(st) || WEXITSTATUS(st) != 0)
 				{
 					ctx.begin_op((int) k);
-					ctx.violate("C06:terminated-on-valid-request", fmt("Factorial(%lld) alone in a pristine process ended the process (status %d)", o.i[0], st));
+					ctx.violate("C06:terminated-on-valid-request", fmt("%s(%lld...) alone in a pristine process ended the process (status %d)", o.kind.c_str(), o.i[0], st));
 				}
 			}
 		}
@@ -275,7 +275,18 @@ struct Exec
 			else if(o.kind == "binom")
 			{
 				first = false;
-				do_binom((unsigned) o.i.at(0), (unsigned) o.i.at(1));
+				unsigned n = (unsigned) o.i.at(0), kk = (unsigned) o.i.at(1);
+				if(o.i.size() >= 3 && o.i[2])
+				{
+					// history oracle for binomials (both the memo path n<=170 and the n>170 path): the first thing this op does is
+					// the flagged call itself, compared bit for bit with a pristine process asked only that
+					ctx.probe(P_SOLO);
+					double v = libphysica::Binomial_Coefficient((int) n, (int) kk);
+					ctx.log.f64(v);
+					if(!same_bits(v, solo[k]))
+						ctx.violate("C06:binomial-history", fmt("Binomial_Coefficient(%u,%u) = %.17g at op %zu of this history; a pristine process asked only that returns %.17g", n, kk, v, k, solo[k]));
+				}
+				do_binom(n, kk);
 			}
 			else if(o.kind == "exhaustive")
 				exhaustive();
@@ -341,20 +352,29 @@ struct Gen
 				long kk = r.irange(0, nn);
 				if(r.chance(0.3))
 					kk = r.chance(0.5) ? r.irange(0, std::min(3l, nn)) : nn - r.irange(0, std::min(3l, nn));
-				p.ops.push_back(Op("binom", {nn, kk}));
+				if(nn > 170 && r.chance(0.5) && !p.ops.empty() && p.ops.back().kind == "binom")
+					nn = (long) std::min(400ll, std::max(171ll, p.ops.back().i[0] + (long long) r.irange(-2, 2)));	  // neighbouring n, as a sweep would ask
+				kk = std::min(kk, nn);
+				p.ops.push_back(Op("binom", {nn, kk, 0}));
 				if(nn <= 170)
 					table = std::max(table, nn + 1);
 			}
 		}
-		// flag up to 8 factorial ops for the pristine-process comparison
-		std::vector<size_t> facts;
+		// flag up to 8 factorial and 6 binomial ops for the pristine-process comparison
+		std::vector<size_t> facts, binoms;
 		for(size_t k = 0; k < p.ops.size(); k++)
+		{
 			if(p.ops[k].kind == "fact")
 				facts.push_back(k);
+			if(p.ops[k].kind == "binom")
+				binoms.push_back(k);
+		}
 		for(int q = 0; q < 8 && !facts.empty(); q++)
 			p.ops[facts[r.below(facts.size())]].i[1] = 1;
 		if(!facts.empty())
 			p.ops[facts.back()].i[1] = 1;
+		for(int q = 0; q < 6 && !binoms.empty(); q++)
+			p.ops[binoms[r.below(binoms.size())]].i[2] = 1;
 		return p;
 	}
 };
